@@ -3,7 +3,7 @@
 cd /verif
 : > seeded/RESULTS.txt
 run() { ./seedrun.sh "$1" "$2" 2>&1 | grep -v WARNING >> seeded/RESULTS.txt; }
-for d in seeded/C*-m* seeded/C*-w2m* seeded/C*-w3m* seeded/C*-w4m* seeded/C*-w5m*; do
+for d in seeded/C*-m* seeded/C*-w2m* seeded/C*-w3m* seeded/C*-w4m* seeded/C*-w5m* seeded/C*-w6m*; do
   id=$(basename $d); prop=${id%%-*}
   run $id $prop
 done
@@ -34,3 +34,6 @@ run C16-w5m2 C17
 run C12-w5m2 C09
 run C09-w5m2 C12
 run C12-w5m1 C05
+run C10-w6m3 C12
+run C06-w6m1 C17
+run C03-w6m1 C18
